@@ -113,7 +113,14 @@ func canon(s []span) ([]span, error) {
 	allEmpty := true
 	// Merge overlapping/adjoining elements.
 	out := s[:0]
+	// merged records the elements already absorbed into an earlier one. They
+	// need not be adjacent: an element that cannot be merged may sort between
+	// two that can.
+	merged := make([]bool, len(s))
 	for i := 0; i < len(s); i++ {
+		if merged[i] {
+			continue
+		}
 		this := s[i]
 		if this.rank == empty {
 			continue
@@ -121,6 +128,9 @@ func canon(s []span) ([]span, error) {
 		allEmpty = false
 		// Merge as many as possible into this element.
 		for j := i + 1; j < len(s); j++ {
+			if merged[j] {
+				continue
+			}
 			next := s[j]
 			if this.max.lessThan(next.min) { // Disjoint: merge only if the closed ends abut.
 				if len(this.max.pre) == 0 {
@@ -154,7 +164,7 @@ func canon(s []span) ([]span, error) {
 				continue
 			}
 			// We'll process the element now, so on the next outer loop, skip it.
-			i++
+			merged[j] = true
 			if next.rank == empty {
 				continue
 			}
